@@ -170,8 +170,10 @@ class BayesianNetwork(DAG):
             if node_cpd:
                 node_cpd.marginalize([node], inplace=True)
 
-        if self.get_cpds(node=node):
-            self.remove_cpds(node)
+        node_cpd = self.get_cpds(node=node)
+        if node_cpd:
+            # (pass the CPD itself: remove_cpds only resolves str/int node names)
+            self.remove_cpds(node_cpd)
 
         self.latents = self.latents - set([node])
 
